@@ -1,4 +1,4 @@
-//! Native replay helper: reads JSON lines {"src":..., "ctx":{...}, "name":opt, "fuel":opt, "templates":opt {name: src}}
+//! Native replay helper: reads JSON lines {"src":..., "ctx":{...}, "name":opt, "fuel":opt, "templates":opt {name: src}, "syntax":opt {"block":[s,e],"variable":[s,e],"comment":[s,e]}}
 //! from stdin, renders each with the real engine and prints one JSON line per input:
 //! {"ok":"<output>"} | {"err":"<kind>: <msg>"} | {"panic":"<msg>"}.
 use minijinja::{Environment, Value};
@@ -26,6 +26,24 @@ fn main() {
                 Some("semi_strict") => env.set_undefined_behavior(minijinja::UndefinedBehavior::SemiStrict),
                 Some("strict") => env.set_undefined_behavior(minijinja::UndefinedBehavior::Strict),
                 _ => {}
+            }
+            if let Some(sy) = req["syntax"].as_object() {
+                // custom delimiters: {"block": [start, end], "variable": [start, end], "comment": [start, end]}
+                let pair = |k: &str, d: (&str, &str)| -> (String, String) {
+                    match sy.get(k).and_then(|v| v.as_array()) {
+                        Some(a) if a.len() == 2 => (a[0].as_str().unwrap_or(d.0).to_string(), a[1].as_str().unwrap_or(d.1).to_string()),
+                        _ => (d.0.to_string(), d.1.to_string()),
+                    }
+                };
+                let (bs, be) = pair("block", ("{%", "%}"));
+                let (vs, ve) = pair("variable", ("{{", "}}"));
+                let (cs, ce) = pair("comment", ("{#", "#}"));
+                let cfg = minijinja::syntax::SyntaxConfig::builder()
+                    .block_delimiters(bs, be)
+                    .variable_delimiters(vs, ve)
+                    .comment_delimiters(cs, ce)
+                    .build()?;
+                env.set_syntax(cfg);
             }
             if let Some(extra) = req["templates"].as_object() {
                 // companion templates (engine B's multi-template families)
